@@ -41,6 +41,7 @@ ASSUMPTIONS = [
 MIN_NONTRIVIAL = 60
 REQUIRED_COUNTERS = ["constructs_due", "constructs_not_due", "module_writer_calls_checked", "crash_points_fired", "recoveries_checked", "race_processes_ok", "midwrite_crashes"]
 REQUIRED_COUNTERS += ["thread_race_constructions"]
+RULE += "; the templates of the thread race hold control structures (if/else, for, try/except) and every racing render is compared with the solo render of its source"
 SHARDS = {"quick": 32, "thorough": 64}
 
 _st = {}
@@ -402,6 +403,20 @@ def run_crash(case, res):
         shutil.rmtree(base, ignore_errors=True)
 
 
+def race_text(i):
+    """400 lines of text and expressions, some of them inside control structures (whose branches write the same line)"""
+    lines = ["SRC#%d" % (100 + i)]
+    for k in range(400):
+        ln = "line %d of template %d ${%d}" % (k, i, k)
+        if k % 7 == 0 and k < 399:
+            lines += ["%% if %d %% 2 == 0:" % k, ln, "% else:", ln, "% endif"]
+        elif k % 11 == 0 and k < 399:
+            lines += ["% for q_ in (1,):", "% try:", ln, "% except ValueError:", "never", "% endtry", "% endfor"]
+        else:
+            lines.append(ln)
+    return "\n".join(lines)
+
+
 def run_thread_race(case, res):
     """several THREADS of this process construct Templates at once - for the same source and module path, and for
     different sources in one module directory - with a tiny switch interval; every one renders its own source and
@@ -419,8 +434,10 @@ def run_thread_race(case, res):
         for i in range(n if case["distinct"] else 1):
             sp = os.path.join(base, "t%d.html" % i)
             with open(sp, "w") as f:
-                f.write("SRC#%d\n" % (100 + i) + "\n".join("line %d of template %d ${%d}" % (k, i, k) for k in range(400)))
+                f.write(race_text(i))
             srcs.append(sp)
+        # what each source renders when nothing else is going on (compiled from the text, in this thread alone)
+        solo = [T(race_text(i)).render_unicode() for i in range(len(srcs))]
         outs = {}
         start = threading.Barrier(n)
 
@@ -444,14 +461,14 @@ def run_thread_race(case, res):
         for i in range(n):
             want = 100 + (i % len(srcs))
             o = outs.get(i, ("exc", "no result"))
-            if o[0] != "out" or shown_version(o[1]) != want or not o[1].endswith("399"):
+            if o[0] != "out" or shown_version(o[1]) != want or not o[1].endswith("399") or o[1] != solo[i % len(srcs)]:
                 res.violate("thread-race-render", "%d threads constructing Templates at once (%s sources): thread %d got %r, expected the text of SRC#%d" % (
                     n, "distinct" if case["distinct"] else "one", i, (o[1][:80] if o[0] == "out" else o), want))
         # afterwards, from the files left on disk
         for i, sp in enumerate(srcs):
             try:
                 o = T(filename=sp, module_directory=md).render_unicode()
-                if shown_version(o) != 100 + i or not o.endswith("399"):
+                if shown_version(o) != 100 + i or not o.endswith("399") or o != solo[i]:
                     res.violate("thread-race-module-file", "after the race the module file of %s renders %r" % (os.path.basename(sp), o[:80]))
             except Exception as e:
                 res.violate("thread-race-module-file", "after the race the module file of %s cannot be used: %s: %s" % (os.path.basename(sp), type(e).__name__, e))
